@@ -48,8 +48,10 @@ def tree_key():
         p = os.path.join(REPO, f)
         if os.path.exists(p):
             h.update(open(p, 'rb').read())
-    for d in ('hook', 'contracts', 'preludes', 'lemmas', 'lib', 'replay/src'):
+    for d in ('hook', 'contracts', 'preludes', 'lemmas', 'replay/src'):
         _hash_dir(h, os.path.join(VERIF, d), ('.rs', '.py', '.vspec', '.toml'))
+    for f in ('lib/extract.py', 'lib/vunits.py', 'lib/rustlex.py'):
+        h.update(open(os.path.join(VERIF, f), 'rb').read())
     return h.hexdigest()[:24]
 
 
